@@ -16,10 +16,11 @@ PLAN = {
     'C09': dict(level='proof', engines=['chordnative', 'keynative']),
     'C10': dict(level='proof', engines=['chordre']),
     'C11': dict(level='proof', engines=['chordnative']),
-    'C12': dict(level='proof', engines=['sumlib']),
+    'C12': dict(level='proof', engines=['sumlib', 'segnative', 'hiernative']),
     'C13': dict(level='proof', engines=['intervalsnative']),
     'C14': dict(level='proof', engines=[]),
     'C16': dict(level='proof', engines=['forward', 'segnative']),
+    'C17': dict(level='proof', engines=['hiernative']),
     'C18': dict(level='proof', engines=['sumlib', 'multipitchnative', 'matchnative']),
     'C19': dict(level='proof', engines=['sepstruct', 'bundles']),
     'C20': dict(level='other', engines=['ionative'],
